@@ -862,3 +862,68 @@ func (g *Gen) HistoryLongStr() []E {
 	evs = append(evs, E{"op": "FindAll", "c": c, "q": []interface{}{sortS(1)}}, E{"op": "Count", "c": c, "q": []interface{}{}, "audit": true})
 	return evs
 }
+
+// ---------------------------------------------------------------- long runs of equal index keys
+
+// HistoryRuns: an indexed field with few distinct values, two of which are held by 33 to 70 documents each (more
+// than an implementation is likely to step over one by one), one by a handful, some documents without the field.
+// Exclusive and inclusive bounds on exactly those values, both scan directions, windows that start and end inside a
+// run, and a bulk delete through the index.
+func (g *Gen) HistoryRuns() []E {
+	c := g.colls[0]
+	vals := []V{ANum(g.smallN[1], "i"), ANum(g.smallN[2], "i"), ANum(g.smallN[3], "i"), AStr("a")}
+	counts := []int{33 + g.r.Intn(38), 2 + g.r.Intn(3), 33 + g.r.Intn(10), 3}
+	evs := []E{{"op": "CreateCollection", "c": c}}
+	early := g.chance(0.5)
+	if early {
+		evs = append(evs, E{"op": "CreateIndex", "c": c, "f": B("x")})
+	}
+	var docs []interface{}
+	k := 0
+	for vi, v := range vals {
+		for j := 0; j < counts[vi]; j++ {
+			docs = append(docs, AObj("_id", AStr(bulkId(k)), "x", v, "k", ANum(g.smallN[k%len(g.smallN)], "i")))
+			k++
+		}
+	}
+	for j := 0; j < 3; j++ {
+		docs = append(docs, AObj("_id", AStr(bulkId(k)), "k", g.smallNum()))
+		k++
+	}
+	g.r.Shuffle(len(docs), func(i, j int) { docs[i], docs[j] = docs[j], docs[i] })
+	for i := 0; i < len(docs); i += 50 {
+		j := i + 50
+		if j > len(docs) {
+			j = len(docs)
+		}
+		evs = append(evs, E{"op": "Insert", "c": c, "docs": docs[i:j]})
+	}
+	if !early {
+		evs = append(evs, E{"op": "CreateIndex", "c": c, "f": B("x"), "audit": true})
+	}
+	un := func(op string, v V) []interface{} {
+		return []interface{}{"where", []interface{}{"un", op, B("x"), []interface{}{"lit", v}}}
+	}
+	sortX := func(dir int) []interface{} {
+		return []interface{}{"sort", []interface{}{[]interface{}{B("x"), dir}, []interface{}{B("_id"), 1}}}
+	}
+	for _, v := range vals[:3] {
+		for _, op := range []string{"gt", "lt", "gte", "lte"} {
+			q := []interface{}{un(op, v)}
+			switch g.r.Intn(3) {
+			case 0:
+				q = append(q, sortX(1))
+			case 1:
+				q = append(q, sortX(-1))
+			}
+			evs = append(evs, E{"op": g.pick([]string{"FindAll", "Count", "FindAll"}), "c": c, "q": q})
+		}
+	}
+	for _, dir := range []int{1, -1} {
+		evs = append(evs, E{"op": "FindAll", "c": c, "q": []interface{}{sortX(dir), []interface{}{"skip", 20 + g.r.Intn(30)}, []interface{}{"limit", 1 + g.r.Intn(30)}}})
+	}
+	evs = append(evs, E{"op": "Derived", "c": c, "q": []interface{}{un("gt", vals[0]), sortX(-1)}, "js": []interface{}{0, 1}, "ids": []interface{}{B(bulkId(0))}})
+	evs = append(evs, E{"op": "Delete", "c": c, "q": []interface{}{un("gt", vals[0])}, "audit": true})
+	evs = append(evs, E{"op": "Count", "c": c, "q": []interface{}{}, "audit": true})
+	return evs
+}
